@@ -132,7 +132,19 @@ impl<'a, 'tcx> Ctx<'a, 'tcx> {
                 val = format!("{}", bits);
             }
         }
-        format!("{{\"c\":{},\"ty\":{},\"v\":{}}}", esc(&format!("{}", c)), esc(&format!("{}", t)), esc(&val))
+        // a named constant (`const PREFIX: &[u8] = b"..";`) is shown by its value, like the literal it stands for, when it evaluates
+        let mut shown = format!("{}", c);
+        if let Const::Unevaluated(uv, _) = c {
+            let named = uv.promoted.is_none() && matches!(self.tcx.def_kind(uv.def), DefKind::Const { .. } | DefKind::AssocConst { .. });
+            if let (true, Ok(v)) = (named, c.eval(self.tcx, self.tenv, rustc_span::DUMMY_SP)) {
+                let c2 = Const::Val(v, t);
+                let s2 = format!("{}", c2);
+                if !s2.is_empty() && s2.len() < 400 {
+                    shown = s2;
+                }
+            }
+        }
+        format!("{{\"c\":{},\"ty\":{},\"v\":{}}}", esc(&shown), esc(&format!("{}", t)), esc(&val))
     }
 
     fn operand(&self, o: &Operand<'tcx>) -> String {
